@@ -938,7 +938,13 @@ where
         .zip(right_points.iter())
         .map(|(l_p, r_p)| *l_p * r_p)
         .collect();
-    Polynomial::<N>::idft(&product_points, lhs.tolerance)
+    let mut product = Polynomial::<N>::idft(&product_points, lhs.tolerance);
+    // The transform length is a power of two above the product's coefficient count:
+    // anything past len_l + len_r - 1 coefficients is rounding noise, not a term.
+    product
+        .coefficients
+        .truncate(lhs.coefficients.len() + rhs.coefficients.len() - 1);
+    product
 }
 
 impl<N: ComplexField + FromPrimitive + Copy> ops::Mul<Polynomial<N>> for Polynomial<N>
